@@ -168,7 +168,7 @@ func TestC18Shutdown(t *testing.T) {
 	hx.Check(t, hx.Scale(12, 150), func(t *rapid.T) {
 		W := time.Duration(rapid.IntRange(200, 1500).Draw(t, "W_ms")) * time.Millisecond
 		kinds := []string{}
-		all := []string{"http", "tcp", "tcp+sni", "grpc", "https+tcp+sni"}
+		all := []string{"http", "tcp", "tcp+sni", "grpc", "https+tcp+sni", "ui"} // ui: the admin server (ui.addr), started by main.go's startAdmin
 		if stalledAddr != "" {
 			all = append(all, "tcp(stalled-upstream)")
 		}
@@ -184,8 +184,18 @@ func TestC18Shutdown(t *testing.T) {
 		tblText := fmt.Sprintf("route add web / %s\nroute add sni sni.example/ tcp://%s\n", httpUp.URL, tcpUp.Addr())
 		tblText += fmt.Sprintf("route add g /c18.S/ grpc://%s opts \"proto=grpc\"\n", h.backends[0].ln.Addr())
 		addrs := map[string]string{}
+		sharedPort := false
 		for _, k := range kinds {
 			addrs[k] = freeAddr()
+			if k == "tcp" && addrs["http"] != "" && rapid.Bool().Draw(t, "tcp-and-http-share-a-port-on-two-addresses") {
+				// the same port on another local address (127.0.0.2): two listeners, two servers
+				_, p, _ := net.SplitHostPort(addrs["http"])
+				if ln, err := net.Listen("tcp", "127.0.0.2:"+p); err == nil {
+					ln.Close()
+					addrs[k] = "127.0.0.2:" + p
+					sharedPort = true
+				}
+			}
 			if k == "tcp" {
 				_, port, _ := net.SplitHostPort(addrs[k])
 				tblText += fmt.Sprintf("route add t :%s tcp://%s\n", port, tcpUp.Addr())
@@ -217,6 +227,11 @@ func TestC18Shutdown(t *testing.T) {
 			go func() {
 				defer serveWG.Done()
 				switch k {
+				case "ui":
+					uicfg := *cfg
+					uicfg.UI.Listen = config.Listen{Addr: addrs[k], Proto: "http"}
+					uicfg.UI.Access = "ro"
+					flex(startAdmin, &uicfg) // returns at once; the server goroutine ends when its listener is shut down
 				case "http":
 					proxy.ListenAndServeHTTP(l, httpHandler, nil)
 				case "tcp":
@@ -256,6 +271,9 @@ func TestC18Shutdown(t *testing.T) {
 		var works []*work
 		hasNever := false
 		for _, k := range kinds {
+			if k == "ui" {
+				continue // the admin server only has to stop accepting
+			}
 			n := rapid.IntRange(0, 3).Draw(t, "nwork-"+k)
 			for i := 0; i < n; i++ {
 				d, short := genDur("dur-" + k)
@@ -339,6 +357,9 @@ func TestC18Shutdown(t *testing.T) {
 		}
 		for _, k := range kinds {
 			hx.Class("listener:" + k)
+		}
+		if sharedPort {
+			hx.Class("two-listeners-on-one-port-different-addresses")
 		}
 		if hx.WantSample("mix") {
 			hx.Sample("mix", map[string]any{"listeners": kinds, "wait": W.String(), "work": describeWorks(works), "shutdown_took": took.Round(time.Millisecond).String()})
